@@ -12,6 +12,7 @@ TITLES = {
     "retention-count": "partition: max(1, n) sub-groups (all, if fewer) are retained before anything is dropped",
     "top-up-order": "partition: protected sub-groups are kept; the others are kept from the front of the report order until n are kept",
     "stale-filter": "partition: only regular files whose length equals the recorded one (unless the size check is off) are eligible",
+    "data-retained": "partition: whenever something is dropped, at least one retained path is not a symbolic link (a retained link may point to a dropped file)",
     "subgroup-args": "partition: sub-groups are formed with the configuration's isolate roots and by file id unless --match-links, whatever else is configured",
     "mtime-check": "partition: with a time limit, every eligible file passed the modification-time check before anything is classified",
 }
